@@ -38,11 +38,27 @@ Feat ==
   ("external_instance":> <<"external", "name">>) @@
   ("audit"            :> <<"question", "parameters">>) @@
   ("table_list"       :> <<"group", "children">>) @@
-  ("last_saved"       :> <<"question", "default">>)
+  ("last_saved"       :> <<"question", "default">>) @@
+  ("search"           :> <<"search_select", "itemset">>) @@
+  ("osm"              :> <<"osm", "choices">>) @@
+  ("rank_and_multi"   :> <<"question", "choices">>) @@
+  ("from_file"        :> <<"question", "itemset">>) @@
+  ("external_select"  :> <<"question", "query">>) @@
+  ("select_from_repeat" :> <<"question", "itemset">>) @@
+  ("background_geopoint" :> <<"question", "trigger">>) @@
+  ("range_decimal"    :> <<"question", "bind_override">>) @@
+  ("note_editable"    :> <<"question", "bind_override">>) @@
+  ("explicit_bind_type" :> <<"question", "bind_override">>) @@
+  ("namespaces"       :> <<"survey", "settings">>)
 Features == DOMAIN Feat
 \* transcription of what the survey's own dump deletes although the XForm depends on it
 DumpDrops(kind, field) == \/ (kind = "group" /\ field = "bind")        \* GroupedSection.to_json_dict: to_delete = (BIND,)
                           \/ (field = "extra_data")                    \* SurveyElement.to_json_dict: chain(..., ("extra_data",))
+                          \* rendering a search() select clears its itemset ("") and the dump removes empty values, so the
+                          \* reloaded select has neither itemset nor list (the builder then fails)
+                          \/ (kind = "search_select" /\ field = "itemset")
+                          \* OsmUploadQuestion has no `choices` slot: the generic dump cannot copy it
+                          \/ (kind = "osm")
 PredictedLost(F) == {f \in F : DumpDrops(Feat[f][1], Feat[f][2])}
 
 VARIABLES feats, phase
